@@ -10,8 +10,8 @@ def sh(cmd, cwd=None, env=None):
     p = subprocess.run(cmd, shell=True, cwd=cwd, env=env, capture_output=True, text=True)
     return p.returncode, (p.stdout + p.stderr)
 
-def main(pid):
-    wt = f"/tmp/seed-{pid}"
+def main(pid, rnd=1):
+    wt = f"/tmp/seed-{pid}" if rnd == 1 else f"/tmp/seed-{pid}-r{rnd}"
     env = dict(os.environ, PYTHONPATH=wt)
     kept = []
     for i in (1, 2):
@@ -30,7 +30,7 @@ def main(pid):
         print(pid, i, "clean rc", rc_clean, "| mutated rc", rc_mut, "|", suite.strip(), "| KEEP" if ok else "| REJECT")
         if not ok:
             print(out_clean[-300:], out_mut[-300:]); continue
-        dst = f"/verif/seeded/{pid}-{i}"
+        dst = f"/verif/seeded/{pid}-{i + 2 * (rnd - 1)}"
         os.makedirs(dst, exist_ok=True)
         shutil.copy(diff, os.path.join(dst, "patch.diff"))
         shutil.copy(demo, os.path.join(dst, "demo.py"))
@@ -50,5 +50,9 @@ def main(pid):
     return kept
 
 if __name__ == "__main__":
-    for pid in sys.argv[1:]:
-        main(pid)
+    args = sys.argv[1:]
+    rnd = 1
+    if args and args[0] == "--round":
+        rnd = int(args[1]); args = args[2:]
+    for pid in args:
+        main(pid, rnd)
